@@ -805,3 +805,89 @@ func extractIntercept(p *pkgs, out string) {
 	}
 	must(l.finish(out))
 }
+
+func extractInterceptServer(p *pkgs, out string) {
+	l := newLean("InterceptServer.lean", "intercept.go InterceptServer: fresh slices, StreamServerInfo construction")
+	pk, fd := p.funcDecl(mod, "InterceptServer")
+	if fd == nil {
+		fail("intercept.go", "InterceptServer", "not found")
+		must(l.finish(out))
+		return
+	}
+	fresh := map[string]bool{}
+	ast.Inspect(fd, func(n ast.Node) bool {
+		as, ok := n.(*ast.AssignStmt)
+		if !ok || len(as.Lhs) != 1 || len(as.Rhs) != 1 {
+			return true
+		}
+		sel, ok := as.Lhs[0].(*ast.SelectorExpr)
+		if !ok {
+			return true
+		}
+		if call, ok := as.Rhs[0].(*ast.CallExpr); ok {
+			if id, ok := call.Fun.(*ast.Ident); ok && id.Name == "make" {
+				fresh[sel.Sel.Name] = true
+			}
+		}
+		return true
+	})
+	// the copy: `intercepted := *svcDesc`
+	copies := false
+	ast.Inspect(fd, func(n ast.Node) bool {
+		as, ok := n.(*ast.AssignStmt)
+		if ok && as.Tok == token.DEFINE && len(as.Rhs) == 1 {
+			if st, ok := as.Rhs[0].(*ast.StarExpr); ok {
+				if id, ok := st.X.(*ast.Ident); ok && id.Name == fd.Type.Params.List[0].Names[0].Name {
+					copies = true
+				}
+			}
+		}
+		return true
+	})
+	l.printf("def serverCopiesDesc : Bool := %v\ndef serverMethodsFresh : Bool := %v\ndef serverStreamsFresh : Bool := %v\n", copies, fresh["Methods"], fresh["Streams"])
+	format := ""
+	fromClient, fromServer := "", ""
+	ast.Inspect(fd, func(n ast.Node) bool {
+		cl, ok := n.(*ast.CompositeLit)
+		if !ok {
+			return true
+		}
+		if sel, ok := cl.Type.(*ast.SelectorExpr); !ok || sel.Sel.Name != "StreamServerInfo" {
+			return true
+		}
+		for _, el := range cl.Elts {
+			kv, ok := el.(*ast.KeyValueExpr)
+			if !ok {
+				continue
+			}
+			k := kv.Key.(*ast.Ident).Name
+			switch k {
+			case "FullMethod":
+				if call, ok := kv.Value.(*ast.CallExpr); ok && len(call.Args) == 3 {
+					if s, ok := constStr(pk, call.Args[0]); ok {
+						a1, _ := call.Args[1].(*ast.SelectorExpr)
+						a2, _ := call.Args[2].(*ast.SelectorExpr)
+						if a1 != nil && a2 != nil {
+							format = s + "|" + a1.Sel.Name + "|" + a2.Sel.Name
+						}
+					}
+				}
+			case "IsClientStream":
+				if s, ok := kv.Value.(*ast.SelectorExpr); ok {
+					fromClient = s.Sel.Name
+				}
+			case "IsServerStream":
+				if s, ok := kv.Value.(*ast.SelectorExpr); ok {
+					fromServer = s.Sel.Name
+				}
+			}
+		}
+		return true
+	})
+	if format == "" || fromClient == "" || fromServer == "" {
+		fail("intercept.go", "streamInfo", "StreamServerInfo literal not recognised")
+	} else {
+		l.printf("def serverStreamInfoFormat : String := %s\ndef infoIsClientFrom : String := %s\ndef infoIsServerFrom : String := %s\n", leanStr(format), leanStr(fromClient), leanStr(fromServer))
+	}
+	must(l.finish(out))
+}
